@@ -38,6 +38,27 @@ contract("CachingLogicalLineFinder.logical_line_in", source=M + "CachingLogicalL
          note="walk back to the nearest start mark, then forward to the first end mark: with marks that come from a partition this is the containing range")
 
 
+# ---- generate_starts: the first lines of the logical lines inside a line interval, in order, none missing ------------------------------------------------
+record("Lines", fields={})
+REG.records["CachingLogicalLineFinder"].fields.update({"lines": "Lines"})
+specfun("n_lines", ["Lines"], "Int", note="lines.length()")
+contract("Lines.length", abstract=True, pure=True, heap_independent=True, params={"self": "Lines"}, returns="Int", ensures=["result == n_lines(self)"])
+specdef("upper", {"f": "CachingLogicalLineFinder", "e": "Opt[Int]"}, "Int", "ite(is_none(e), n_lines(f.lines), val(e))")
+contract("CachingLogicalLineFinder.generate_starts", source=M + "CachingLogicalLineFinder.generate_starts",
+         params={"self": "CachingLogicalLineFinder", "start_line": "Int", "end_line": "Opt[Int]"}, defaults={"start_line": "1", "end_line": "None"}, returns="Seq[Int]",
+         requires=["len(st_of(self)) == n_lines(self.lines) + 1", "0 <= start_line", "implies(not is_none(end_line), val(end_line) <= len(st_of(self)))",
+                   "forall(lambda a: implies(0 <= a and a < len(st_of(self)), is_none(st_of(self)[a]) or val(st_of(self)[a])))"],
+         modifies=[], raises={},
+         ensures=["forall(lambda a, b: implies(0 <= a and a < b and b < len(result), result[a] < result[b]))",
+                  "forall(lambda k: implies(0 <= k and k < len(result), start_line <= result[k] and result[k] < upper(self, end_line) and on(st_of(self), result[k])))",
+                  "forall(lambda a: implies(start_line <= a and a < upper(self, end_line) and on(st_of(self), a), a in result))"],
+         loops={1: {"index": "i", "inv": [
+             "forall(lambda a, b: implies(0 <= a and a < b and b < len(_yielded), _yielded[a] < _yielded[b]))",
+             "forall(lambda k: implies(0 <= k and k < len(_yielded), start_line <= _yielded[k] and _yielded[k] < start_line + i and on(st_of(self), _yielded[k])))",
+             "forall(lambda a: implies(start_line <= a and a < start_line + i and on(st_of(self), a), a in _yielded))"]}},
+         note="generator: yields exactly the marked lines of [start_line, end_line) (end_line None = the last line, exclusive, as the code has it), increasing")
+
+
 # ---- CPython cross-check on real CachingLogicalLineFinder objects: the precondition (what _init_logicals leaves) and the lookup ------------------------
 def _xc_cl_domain(tier, seed):
     import itertools
@@ -80,3 +101,27 @@ bounded_check(name="c14-logical-line-in-native", props=["C14"], contract="Cachin
 bounded_check(name="c14-marks-established-native", props=["C14"], fn=_xc_marks_established, domain=lambda t, s: [c for c in _xc_cl_domain(t, s) if c[1] == 0], exhaustive=True,
               label="native only (_init_logicals is not under contract: list repetition and item assignment): on the same texts the cached marks are exactly the "
                     "starts / ends of the generator's ranges, i.e. the precondition `marks_ok` of the lookup holds on real objects")
+
+
+def _xc_gs_domain(tier, seed):
+    seen = set()
+    for text, _ in _xc_cl_domain(tier, seed):
+        if text in seen:
+            continue
+        seen.add(text)
+        n = text.count("\n") + 1
+        for start_line in range(0, n + 1):
+            for end_line in [None] + list(range(start_line, n + 2)):
+                yield (text, start_line, end_line)
+
+
+def _xc_gs_build(case):
+    from rope.base import codeanalyze
+    text, start_line, end_line = case
+    lines = codeanalyze.SourceLinesAdapter(text)
+    return {"self": codeanalyze.CachingLogicalLineFinder(lines), "start_line": start_line, "end_line": end_line, "__dom__": range(-1, lines.length() + 3)}
+
+
+bounded_check(name="c14-generate-starts-native", props=["C14"], contract="CachingLogicalLineFinder.generate_starts", build=_xc_gs_build, domain=_xc_gs_domain, exhaustive=True,
+              env=dict(_XC_CL_ENV, n_lines=lambda l: l.length()),
+              label="CPython cross-check: generate_starts' contract on real finders: the same texts x every (start_line, end_line) pair including end_line=None")
